@@ -29,6 +29,7 @@ func init() {
 			{"C04/source", "clientIp attribute set only in EnrichContext: XFF element 0 when present, TCP peer host otherwise; middleware installed before all routes", c04Source},
 			{"C04/default", "verification defaults to true and is written only from configuration", c04Default},
 			{"C04/deny-path", "refusal by the host/session check: access-denied status, no dial, tunnel ends", func(c *Ctx) { c03DenyPathAs(c, "C04/deny-path") }},
+			{"C04/identity-source", "the identity a request's handlers see is the one built for that request: context identities are installed only by identity.AddToRequestCtx, from this request's own identity", c04IdentitySource},
 		},
 	})
 }
@@ -193,8 +194,9 @@ func c04ClaimFlowAs(c *Ctx, rule string) {
 	c.Floor(rule, 4, "3 claims + verifier store")
 }
 
-func c04Source(c *Ctx) {
-	rule := "C04/source"
+func c04Source(c *Ctx) { c04SourceAs(c, "C04/source") }
+
+func c04SourceAs(c *Ctx, rule string) {
 	en := c.Fn("cmd/rdpgw/web", "EnrichContext")
 	if len(en.AnonFuncs) != 1 {
 		c.Missing("EnrichContext closures")
@@ -417,4 +419,60 @@ func c04Default(c *Ctx) {
 		})
 	}
 	c.Floor(rule, 3, "default, initial value, main")
+}
+
+// c04IdentitySource: CheckSession compares the token's address with the clientIp attribute of the
+// identity found in the context. That identity must be the one EnrichContext built for this very
+// request (and the auth middleware re-installed): no other code puts an identity into a context,
+// and what AddToRequestCtx installs comes from the same request.
+func c04IdentitySource(c *Ctx) {
+	rule := "C04/identity-source"
+	key := c.constStringOf("cmd/rdpgw/identity", "CTXKey")
+	n := 0
+	for _, f := range c.allFirstPartyFuncs() {
+		for _, ci := range callsTo(f, "context.WithValue") {
+			if k, ok := constString(arg(ci, 1)); ok && k == key {
+				n++
+				c.Check(shortFn(f) == "cmd/rdpgw/identity.AddToRequestCtx", rule, "WithValue(identity key) in "+shortFn(f), ci.Pos(), "identities enter a context only through identity.AddToRequestCtx", "an identity is placed into a context outside identity.AddToRequestCtx: handlers and the session check then see an identity (and client address) that was not built for this request")
+			}
+		}
+		for _, ci := range callsTo(f, identPkgPath+".AddToRequestCtx") {
+			n++
+			req := strip(arg(ci, 1))
+			good := true
+			why := ""
+			for _, o := range c.originsDeep(arg(ci, 0), 0, identPkgPath+".FromRequestCtx", identPkgPath+".FromCtx", identPkgPath+".NewUser", webPkgPath+".GetSessionIdentity") {
+				if o.Kind == "param" {
+					// a helper that is handed the identity: resolved at its call sites
+					ok := c.allUp(o.Value, func(u ssa.Value) bool {
+						for _, uo := range c.originsDeep(u, 0, identPkgPath+".FromRequestCtx", identPkgPath+".FromCtx", identPkgPath+".NewUser", webPkgPath+".GetSessionIdentity") {
+							if uo.Kind != "call" {
+								return false
+							}
+						}
+						return true
+					})
+					if !ok {
+						good, why = false, "identity parameter not resolvable to this request's identity"
+					}
+					continue
+				}
+				if o.Kind != "call" {
+					good, why = false, "installed identity is "+o.String()
+					continue
+				}
+				switch calleeName(o.Call) {
+				case identPkgPath + ".FromRequestCtx":
+					if r0 := strip(arg(o.Call, 0)); r0 != req && c.norm(r0) != c.norm(req) {
+						good, why = false, "identity taken from another request"
+					}
+				case identPkgPath + ".NewUser", webPkgPath + ".GetSessionIdentity", identPkgPath + ".FromCtx":
+				default:
+					good, why = false, "installed identity is "+o.String()
+				}
+			}
+			c.Check(good, rule, "AddToRequestCtx in "+shortFn(f), ci.Pos(), "installs this request's own identity (from its context, its session, or a fresh one)", "the identity installed for the next handler is not this request's own: "+why)
+		}
+	}
+	c.Floor(rule, 5, "WithValue in identity + four middleware installs")
 }
